@@ -122,9 +122,9 @@ func (c *conn) Transport(ctx context.Context, request []byte) (response []byte, 
 	}
 }
 
-func (c *conn) Exit(onExit func(), err error) {
+func (c *conn) Exit(onExit func(), e interface{}, err error) {
 	onExit()
-	if e := recover(); e != nil {
+	if e != nil {
 		err = core.NewPanicError(e)
 	}
 	if err != nil {
@@ -150,7 +150,7 @@ func (c *conn) send(request data) error {
 func (c *conn) Send(ctx context.Context, onExit func()) {
 	var err error
 	defer func() {
-		c.Exit(onExit, err)
+		c.Exit(onExit, recover(), err)
 	}()
 	for {
 		select {
@@ -203,7 +203,7 @@ func (c *conn) receive() (err error) {
 func (c *conn) Receive(ctx context.Context, onExit func()) {
 	var err error
 	defer func() {
-		c.Exit(onExit, err)
+		c.Exit(onExit, recover(), err)
 	}()
 	for {
 		select {
